@@ -30,6 +30,16 @@ func (ps *PrintState) GetSeen(x interface{}) bool {
 	return ok
 }
 
+// Unsee forgets x again. The printer of a container marks it as seen
+// while its elements are printed and forgets it afterwards, so that
+// only a container met inside itself counts as seen.
+func (ps *PrintState) Unsee(x interface{}) {
+	if ps == nil {
+		return
+	}
+	delete(ps.Seen, x)
+}
+
 func (ps *PrintState) GetIndent() int {
 	if ps == nil {
 		return 0
